@@ -16,6 +16,12 @@ Reads, fail closed, from the source tree under test:
    over `detector.time_step`, the arguments and step-independent detector attributes: one row per combination of
    the option branches (`if convert_to_photons:` ...), helpers that receive the time step are inlined.
 
+3. (translator/c17_life.py) the Detector family and, for every class that defines its own `empty(reset)`, what it
+   empties for reset = True / False and with which value it calls the parent's `empty`; the functions that run
+   the readouts of an exposure and the argument of their `detector.empty(...)` calls  -> `det_table`, `loop_table`
+   (Model/FluxDet.v); Properties/C17.v proves that on every class, by every loop, photon and charge are emptied
+   at every readout and pixel exactly in destructive mode.
+
 The rows go to Gen_C17.v as `rate_table : list rate_row` (Model/FluxExpr.v); Properties/C17.v proves over the
 regenerated table that every deterministic row is linear in the time step.  Nothing here fingerprints a function
 body: assignments are followed symbolically, so reordering, renaming locals or introducing intermediate factors
@@ -30,6 +36,7 @@ from pathlib import Path
 
 from harness.core import TranslationError
 
+from . import c17_life as life
 from .common import HEADER, parse
 
 MODELS_DIR = "pyxel/models"
@@ -868,7 +875,7 @@ def render(st: dict) -> str:
     L = [HEADER,
          "(* C17: time readers of pyxel/models and the increment expressions of the time-integrating models *)",
          "From Coq Require Import QArith List String.",
-         "From PyxelV Require Import Model.FluxExpr.",
+         "From PyxelV Require Import Model.FluxExpr Model.FluxDet.",
          "Import ListNotations.", "Open Scope string_scope.", "Open Scope Q_scope.", ""]
     L.append("(* every function under pyxel/models that reads the exposure clock (or has a time_scale parameter) *)")
     L.append("Definition time_readers : list (string * list string) := [")
@@ -891,7 +898,8 @@ def render(st: dict) -> str:
                     f"     rr_sink := {'SPhoton' if r['sink'] == 'photon' else 'SCharge'};\n"
                     f"     rr_expr := {e_lit(r['expr'])} |}}")
     L.append(";\n".join(rows))
-    L.append("].")
+    L.append("].\n")
+    L.append(life.render_life(st["family"], st["loops"]))
     return "\n".join(L) + "\n"
 
 
@@ -908,7 +916,8 @@ def translate_struct(repo: Path) -> dict:
     # an excluded entry whose function disappeared or stopped reading the clock is harmless (kept in the table);
     # an integrating model must still exist - whether it still uses the time step is decided by its rows below
     sym = Sym(repo)
-    st = dict(readout=readout_guards(repo), readers=readers, integrating=[], expr_models=[], excluded=[], rows=[], models={})
+    st = dict(readout=readout_guards(repo), readers=readers, integrating=[], expr_models=[], excluded=[], rows=[], models={},
+              family=life.detector_family(repo), loops=life.readout_loops(repo))
     for key in sorted(CLASSIFICATION):
         c = CLASSIFICATION[key]
         if c["cls"] == EXCLUDED:
